@@ -201,3 +201,11 @@ def run(ctx: Ctx):
     ctx.rule("R06.c", "the delta option reaches the guard from get_code through add_schemes", floor=5)
     ctx.check("delta" in m.func.params, "R06.c", m.func.key("delta-param"), "builder has a delta parameter", f"{m.func.name} has no delta parameter", m.func.where())
     check_delta_flow(ctx, "R06.c")
+    from .c18 import check_config_keys
+
+    check_config_keys(ctx, "R06.c", only_keys={"delta"})
+    from .c12 import check_generator_purity
+
+    # delta arrives as a keyword of CodeGenerator.scheme: a result remembered from an earlier call would carry the
+    # earlier delta
+    check_generator_purity(ctx, "R06.c", only={"scheme"})
